@@ -478,6 +478,20 @@ func execute(sc Script, rep *kit.Report) error {
 				rep.Class("assigned-role-deleted")
 			}
 			merr = s.inView(func(tx gorp.Tx) error { return fx.rbac.Role.NewWriter(tx, false).Delete(ctx, s.roleKey[rid]) })
+			if op.B != "" {
+				// role.Writer.Delete "will fail if the role is builtin" for a writer opened
+				// without allowInternal. The role is then still there and still assigned, so
+				// the checks that follow in this view must keep honouring it.
+				if merr == nil {
+					rep.Discard("builtin-role-delete-accepted")
+					return nil
+				}
+				rep.Class("builtin-role-delete-refused")
+				if len(w.m.subjectsOf(rid)) > 0 {
+					rep.Class("builtin-role-delete-refused-while-assigned")
+				}
+				continue
+			}
 			if merr != nil && len(w.m.subjectsOf(rid)) > 0 {
 				// role.Writer.Delete is documented to "fail ... if any users are assigned to
 				// the role" (the code does not): a refusal is accepted, the role then stays.
